@@ -178,7 +178,8 @@ let handle (line : string) : string =
                 (* hypotheses of the pass theorems (OptPassProof.pass_unroll_sound, OptPassInline.pass_inline_builtin_sound) *)
                 let in_domain = names_nodup !grammar && all_grammar count_ok !grammar && builtins_plain bi !grammar
                                 && not (List.exists (fun r -> int_of_n r.r_name = 2) !grammar)
-                                && int_of_nat (gdepth !grammar) <= 400 in
+                                && int_of_nat (gdepth !grammar) <= 400
+                                && nodupN order in       (* hypothesis of pass_inline_silent_sound *)
                 let side = (if in_domain then "" else " outside-domain") in
                 if bad = [] && missing = [] then "SAME" ^ side
                 else "DIFF " ^ String.concat "," (List.map (fun r' -> string_of_int (int_of_n r'.r_name)) (bad @ missing)) ^ side)
